@@ -199,5 +199,5 @@ package mkvs
 //@   props C04
 //@   requires c != nil && ptr != nil
 //@   precall ProofVerifier\)\.VerifyProof$ :: argIs(2, proof) && ((argAs[hash.Hash](1) == ptr.Hash && dstPtr == ptr) || (argAs[hash.Hash](1) == c.syncRoot.Hash && dstPtr == c.pendingRoot))
-//@   precall MergeVerifiedSubtree$ :: argIs(1, dstPtr) && argIs(2, subtree) && err == nil && (dstPtr == ptr || dstPtr == c.pendingRoot)
+//@   precall MergeVerifiedSubtree$ :: argIs(1, dstPtr) && argIs(2, subtree) && err == nil
 //@   note a fetched proof is verified against a hash this node already trusts - the hash of the pointer being dereferenced, or the hash of the sync root - and the verified subtree is merged at the corresponding pointer (the dereferenced pointer, or the pending root); nothing is merged before verification succeeded
